@@ -63,6 +63,9 @@ fn main() {
     if prop == "C02" {
         ops::c02_too_long(&mut out);
     }
+    if prop == "C05" || prop == "C01" {
+        ops::large_bytes(&mut g, thorough, &mut out);
+    }
     if prop == "C05" {
         ops::c05_streams(&cat, &mut g, if thorough { 20000 } else { 1500 }, &mut out);
     }
